@@ -220,6 +220,8 @@ class Machine:
             return env[o["v"]]
         if "c" in o:
             return self.constant(o["c"])
+        if "md" in o:
+            return None
         raise Unsupported("operand %r" % (o,))
 
     # ------------------------------------------------------------- branch
